@@ -31,8 +31,18 @@ class Capture(logging.Handler):
         a = record.args
         self.sink.append({"logger": self.lid, "level": record.levelno, "name": record.name,
                           "args": {k: a.get(k) for k in ("value", "demand", "supply", "utilisation", "allocation")},
-                          "target_is": a.get("target"), "base_demand_at_emit": self.base._demand,
+                          "target_is": a.get("target"), "base_demand_at_emit": self.base._demand, "record": record,
                           "keys": sorted(a.keys())})
+
+
+def late_same(r):
+    a = r["record"].args
+    try:
+        late = {k: a[k] for k in ("value", "demand", "supply", "utilisation", "allocation")}
+        r["record"].getMessage()
+    except Exception:
+        return False
+    return late == r["args"]
 
 
 def q(rng, lo, hi, dens=(1, 1, 2, 4)):
@@ -137,6 +147,9 @@ def impl(case):
                 extra.append({"before": canon(before),
                               "emit_ok": all(r["base_demand_at_emit"] == before for r in sink),
                               "level_ok": all((r["level"], r["name"]) == level_of[r["logger"]] for r in sink),
+                              # a handler that keeps the record and formats it later (MemoryHandler, a test
+                              # fixture) must still see the state from before the write
+                              "late_ok": all(late_same(r) for r in sink),
                               "keys_ok": all(set(r["keys"]) >= {"value", "demand", "supply", "utilisation", "allocation", "target"} for r in sink)})
             else:
                 setattr(base, "_" + op[1], num(op[2]))
@@ -194,6 +207,8 @@ def oracle(case, o):
                 per[r[0]] = per.get(r[0], 0) + 1
             if any(c != 1 for c in per.values()):
                 out.append(("logger-record-count", "a Logger emitted %r records for one write" % (per,)))
+            if not ex.get("late_ok", True):
+                out.append(("logger-record-not-a-snapshot", "read after the write, the record no longer carries the state from before the write: %r" % (ex,)))
             if not (ex["emit_ok"] and ex["level_ok"] and ex["keys_ok"]):
                 out.append(("logger-record-form", "record emitted after the write was applied / wrong level or logger / missing fields: %r" % (ex,)))
             if transparent:
